@@ -15,7 +15,8 @@ PROPS = {
         ],
         undecided=["the structural induction over the number of records (lemmas H1/H3 imply injectivity of the whole "
                    "stream) is a meta-step unless the Lean check is present",
-                   "wiring of the ingredients in executor.py (_compute_inp_step_hash, _compute_full_step_hash)"],
+                   "wiring of the ingredients in executor.py (_compute_inp_step_hash, _compute_full_step_hash): only the source of "
+                   "the tracked environment values is pinned (structural obligation C04/scan/hash_env_source)"],
         assumptions=["SHA-256 collision resistance", "UTF-8 facts", "os.stat reports st_mode != 0 for an existing file"],
         level="Contracts on the real hash.py / step.py functions pin the digested byte streams to spec streams for all "
               "inputs and all iteration counts (loop invariants), prove refreshed()/compute_file_digest() against the "
@@ -127,9 +128,12 @@ PROPS["C10"] = dict(
              "every row event in the read footprint has a trigger flagging the affected steps; only the recomputation "
              "clears the flag; recomputation precedes selection in the same transaction",
              "local equations of _safe / _implied_need", "phase end: job_loop returns only after an empty answer with both "
-             "task tables empty and no await in between", "termination: accepted defers strictly increase defer_count up to the cap"],
-    undecided=["that no wake-up of the job loop is lost (interleaving property)", "the recursive propagation of _safe / "
-               "_implied_need (assumed closures)"],
+             "task tables empty and no await in between", "termination: accepted defers strictly increase defer_count up to the cap",
+             "mark_completed wakes the consumers of every output it flips back to BUILT"],
+    undecided=["that no wake-up of the job loop (asyncio event) is lost (interleaving property)", "the recursive propagation "
+               "of _safe / _implied_need (assumed closures); agreement of the cached columns with their definitions after "
+               "arbitrary histories and lost wake-ups in the stored graph: bounded stand-in dispatch_is_exact (every schedule "
+               "of nine small worlds, eligibility from the base tables at every decision)"],
     assumptions=["SQLite fires per-row AFTER triggers as documented, recursive triggers off"],
     level="SQL text of the dispatch query, triggers and recomputation statements is parsed from the working tree and "
           "proved against spec predicates / coverage tables; job_loop and mark_completed are executed symbolically.",
@@ -137,7 +141,7 @@ PROPS["C10"] = dict(
 )
 
 PROPS["C03"] = dict(
-    modules=["contracts.sched_sql", "contracts.C12_limits", "contracts.C10_dispatch", "contracts.C03_inputs"],
+    modules=["contracts.sched_sql", "contracts.C12_limits", "contracts.C10_dispatch", "contracts.C03_inputs", "contracts.C03_rerun"],
     decided=["a selected step is ready, and ready means every initial input attached and BUILT/CONFIRMED, no attached "
              "dynamic input PLANNED/OUTDATED, no VOLATILE input", "_derive_job sanity checks", "a hash is recorded only "
              "if no input changed unexpectedly, no amended input was unavailable or unfresh and the run succeeded",
